@@ -84,3 +84,8 @@ check("C10", "other",
       "attach_payload over six families of trees sharing a materialization node, with symbolic rows; write-once payload identity "
       "and at-most-once evaluation counters are path assertions, cached-row equality is decided by z3.",
       BSV + " over bounded action histories", "3/C10")
+check("C09", "other",
+      "Bounded exhaustive exploration under symx of every history (<=3 actions over factory calls, compile, execute, process, "
+      "diagnostics) with symbolic rows: deep fingerprints of all earlier relations, hashability, rebuild equality and compile "
+      "determinism are path assertions; equality of repeated executions is decided by z3.",
+      BSV + " over bounded action histories", "3/C09")
